@@ -91,6 +91,41 @@ pub enum Stdin<'a> {
     File(&'a Path),
 }
 
+/// A device node of the harness's own that behaves like `/dev/full` (`full` = true) or `/dev/null`:
+/// a subject that mistreats its sink (removes or replaces it) then damages this node, not the
+/// system's. Falls back to the system's node where device nodes cannot be made.
+pub fn private_device(full: bool) -> &'static str {
+    static FULL: std::sync::OnceLock<String> = std::sync::OnceLock::new();
+    static NULL: std::sync::OnceLock<String> = std::sync::OnceLock::new();
+    let make = |name: &str, minor: u32, fallback: &str| -> String {
+        let _ = fs::create_dir_all(SCRATCH_ROOT);
+        let path = format!("{SCRATCH_ROOT}/{name}-{}", std::process::id());
+        let _ = fs::remove_file(&path);
+        let c = std::ffi::CString::new(path.clone()).unwrap();
+        // SAFETY: plain libc call with a valid NUL-terminated path.
+        let rc = unsafe { libc::mknod(c.as_ptr(), libc::S_IFCHR | 0o666, libc::makedev(1, minor)) };
+        let usable = rc == 0 && fs::OpenOptions::new().write(true).open(&path).is_ok();
+        if usable {
+            path
+        } else {
+            let _ = fs::remove_file(&path);
+            fallback.to_string()
+        }
+    };
+    if full {
+        FULL.get_or_init(|| make("dev-full", 7, "/dev/full"))
+    } else {
+        NULL.get_or_init(|| make("dev-null", 3, "/dev/null"))
+    }
+}
+
+/// Removes the private device nodes of this process (end of a run).
+pub fn remove_private_devices() {
+    for name in ["dev-full", "dev-null"] {
+        let _ = fs::remove_file(format!("{SCRATCH_ROOT}/{name}-{}", std::process::id()));
+    }
+}
+
 /// Per-process scratch directory under /verif/target/scratch, removed at exit.
 pub struct Scratch {
     pub dir: PathBuf,
@@ -140,6 +175,27 @@ impl Default for Limits {
     }
 }
 
+/// `run_sfs` with a final path argument that need not be valid UTF-8 (stdin is empty).
+pub fn run_sfs_with_path(args: &[&str], path: &Path, scratch: &Scratch) -> Out {
+    let mut cmd = Command::new(SFS_BIN);
+    cmd.args(args).arg(path).env_clear().env("SFS_ALLOW_STDIN", "1").env("RUST_BACKTRACE", "0").current_dir(&scratch.dir).stdin(Stdio::null()).stdout(Stdio::piped()).stderr(Stdio::piped());
+    // SAFETY: only async-signal-safe libc calls between fork and exec.
+    unsafe {
+        cmd.pre_exec(|| {
+            libc::alarm(60);
+            Ok(())
+        });
+    }
+    let out = match cmd.output() {
+        Ok(o) => o,
+        Err(e) => {
+            eprintln!("ENGINE: cannot run {SFS_BIN}: {e}");
+            std::process::exit(2);
+        }
+    };
+    Out { code: out.status.code(), signal: out.status.signal(), stdout: out.stdout, stderr: out.stderr }
+}
+
 pub fn run_sfs(args: &[&str], stdin: Stdin, scratch: &Scratch) -> Out {
     run_sfs_env(args, stdin, scratch, &[], &Limits::default())
 }
@@ -159,9 +215,24 @@ pub fn run_sfs_env(
         .current_dir(&scratch.dir)
         .stdout(Stdio::piped())
         .stderr(Stdio::piped());
+    // two pseudo variables are not passed on but acted on: the child is confined to CPU 0, or is
+    // started in a directory that is removed before it runs
+    let one_cpu = env.iter().any(|(k, _)| *k == "__SFSMC_ONE_CPU");
+    let deleted_cwd = env.iter().any(|(k, _)| *k == "__SFSMC_DELETED_CWD");
     for (k, v) in env {
-        cmd.env(k, v);
+        if !k.starts_with("__SFSMC_") {
+            cmd.env(k, v);
+        }
     }
+    let gone = if deleted_cwd {
+        let d = scratch.path(".gone");
+        fs::create_dir_all(&d).expect("scratch dir");
+        cmd.current_dir(&d);
+        Some(d)
+    } else {
+        None
+    };
+    let gone_c = gone.as_ref().map(|d| std::ffi::CString::new(d.to_str().unwrap()).unwrap());
     let mut tmp: Option<PathBuf> = None;
     match stdin {
         Stdin::Null => {
@@ -191,6 +262,15 @@ pub fn run_sfs_env(
                 rlim_max: 0,
             };
             libc::setrlimit(libc::RLIMIT_CORE, &core);
+            if one_cpu {
+                let mut set: libc::cpu_set_t = std::mem::zeroed();
+                libc::CPU_SET(0, &mut set);
+                libc::sched_setaffinity(0, std::mem::size_of::<libc::cpu_set_t>(), &set);
+            }
+            if let Some(d) = &gone_c {
+                // (the child already is in the directory; removing it leaves it without a path)
+                libc::rmdir(d.as_ptr());
+            }
             // wall-clock cap: the alarm survives exec; SIGALRM's default action terminates
             libc::alarm(wall);
             Ok(())
@@ -567,6 +647,137 @@ pub fn run_sfs_stdout_to(args: &[&str], stdin: &[u8], sink: &Path, scratch: &Scr
     Out { code: out.status.code(), signal: out.status.signal(), stdout: Vec::new(), stderr: out.stderr }
 }
 
+/// Runs `sfs` with stdout appended (`>>`) to a file that already holds `earlier`; returns the run and
+/// what the file holds afterwards.
+pub fn run_sfs_stdout_appended(args: &[&str], stdin: &[u8], earlier: &[u8], scratch: &Scratch) -> (Out, Vec<u8>) {
+    let inp = scratch.file(".stdin", stdin);
+    let sink = scratch.file(".appended", earlier);
+    let sink_f = fs::OpenOptions::new().append(true).open(&sink).expect("open sink for appending");
+    let mut cmd = Command::new(SFS_BIN);
+    cmd.args(args)
+        .env_clear()
+        .env("SFS_ALLOW_STDIN", "1")
+        .env("RUST_BACKTRACE", "0")
+        .current_dir(&scratch.dir)
+        .stdin(fs::File::open(&inp).expect("open stdin file"))
+        .stdout(sink_f)
+        .stderr(Stdio::piped());
+    // SAFETY: only async-signal-safe libc calls between fork and exec.
+    unsafe {
+        cmd.pre_exec(|| {
+            libc::alarm(60);
+            Ok(())
+        });
+    }
+    let out = match cmd.output() {
+        Ok(o) => o,
+        Err(e) => {
+            eprintln!("ENGINE: cannot run {SFS_BIN}: {e}");
+            std::process::exit(2);
+        }
+    };
+    let got = fs::read(&sink).unwrap_or_default();
+    let _ = fs::remove_file(inp);
+    let _ = fs::remove_file(sink);
+    (Out { code: out.status.code(), signal: out.status.signal(), stdout: Vec::new(), stderr: out.stderr }, got)
+}
+
+/// Runs `sfs` with a terminal (the slave side of a fresh pseudo-terminal) on stdin; the input is
+/// expected to be named in `args`. Returns `None` where no pseudo-terminal can be opened.
+pub fn run_sfs_stdin_terminal(args: &[&str], scratch: &Scratch) -> Option<Out> {
+    use std::os::fd::FromRawFd;
+    let (mut master, mut slave) = (0 as libc::c_int, 0 as libc::c_int);
+    // SAFETY: plain libc call; the two descriptors are owned below.
+    if unsafe { libc::openpty(&mut master, &mut slave, std::ptr::null_mut(), std::ptr::null(), std::ptr::null()) } != 0 {
+        return None;
+    }
+    // SAFETY: `slave` and `master` are fresh descriptors owned by nothing else.
+    let slave_f = unsafe { fs::File::from_raw_fd(slave) };
+    let master_f = unsafe { fs::File::from_raw_fd(master) };
+    let mut cmd = Command::new(SFS_BIN);
+    cmd.args(args)
+        .env_clear()
+        .env("RUST_BACKTRACE", "0")
+        .current_dir(&scratch.dir)
+        .stdin(slave_f)
+        .stdout(Stdio::piped())
+        .stderr(Stdio::piped());
+    // SAFETY: only async-signal-safe libc calls between fork and exec.
+    unsafe {
+        cmd.pre_exec(|| {
+            libc::alarm(60);
+            Ok(())
+        });
+    }
+    let out = match cmd.output() {
+        Ok(o) => o,
+        Err(e) => {
+            eprintln!("ENGINE: cannot run {SFS_BIN}: {e}");
+            std::process::exit(2);
+        }
+    };
+    drop(master_f);
+    Some(Out { code: out.status.code(), signal: out.status.signal(), stdout: out.stdout, stderr: out.stderr })
+}
+
+/// Runs `sfs` without the test suite's SFS_ALLOW_STDIN and with stdin of the given kind: "directory"
+/// (reads fail with EISDIR), "null", "closed", "empty-file", "file-with-data" or "terminal".
+pub fn run_sfs_stdin_kind(args: &[&str], kind: &str, scratch: &Scratch) -> Out {
+    use std::os::fd::FromRawFd;
+    let mut cmd = Command::new(SFS_BIN);
+    cmd.args(args).env_clear().env("RUST_BACKTRACE", "0").current_dir(&scratch.dir).stdout(Stdio::piped()).stderr(Stdio::piped());
+    let mut master: Option<fs::File> = None;
+    let mut close0 = false;
+    match kind {
+        "directory" => {
+            cmd.stdin(fs::File::open(&scratch.dir).expect("open scratch dir"));
+        }
+        "closed" => {
+            cmd.stdin(Stdio::null());
+            close0 = true;
+        }
+        "empty-file" => {
+            cmd.stdin(fs::File::open(scratch.file(".empty", b"")).expect("open"));
+        }
+        "file-with-data" => {
+            cmd.stdin(fs::File::open(scratch.file(".data", b"#SHAPE=<2>\n1 2\n")).expect("open"));
+        }
+        "terminal" => {
+            let (mut m, mut sl) = (0 as libc::c_int, 0 as libc::c_int);
+            // SAFETY: plain libc call; the descriptors are owned below.
+            if unsafe { libc::openpty(&mut m, &mut sl, std::ptr::null_mut(), std::ptr::null(), std::ptr::null()) } == 0 {
+                // SAFETY: fresh descriptors owned by nothing else.
+                cmd.stdin(unsafe { fs::File::from_raw_fd(sl) });
+                master = Some(unsafe { fs::File::from_raw_fd(m) });
+            } else {
+                cmd.stdin(Stdio::null());
+            }
+        }
+        _ => {
+            cmd.stdin(Stdio::null());
+        }
+    }
+    // SAFETY: only async-signal-safe libc calls between fork and exec.
+    unsafe {
+        cmd.pre_exec(move || {
+            if close0 {
+                libc::close(0);
+            }
+            libc::alarm(60);
+            Ok(())
+        });
+    }
+    let out = match cmd.output() {
+        Ok(o) => o,
+        Err(e) => {
+            eprintln!("ENGINE: cannot run {SFS_BIN}: {e}");
+            std::process::exit(2);
+        }
+    };
+    drop(master);
+    Out { code: out.status.code(), signal: out.status.signal(), stdout: out.stdout, stderr: out.stderr }
+}
+
 /// Runs `sfs` with stdout connected to a pipe whose read end is already closed: every write to
 /// stdout fails with EPIPE (Rust ignores SIGPIPE, so the process sees an error, not a signal).
 pub fn run_sfs_stdout_closed_pipe(args: &[&str], stdin: &[u8], scratch: &Scratch) -> Out {
@@ -647,6 +858,17 @@ fn option_table(sub: &str) -> Vec<OptSpec> {
     }
     t
 }
+
+/// Environments that must not change what the tool computes and prints on stdout.
+pub const ENVIRONMENTS: [(&str, &[(&str, &str)]); 7] = [
+    ("env-RUST_LOG-trace", &[("RUST_LOG", "trace")]),
+    ("env-RUST_LOG-off-backtrace-full", &[("RUST_LOG", "off"), ("RUST_BACKTRACE", "full")]),
+    ("env-locale-de_DE", &[("LANG", "de_DE.UTF-8"), ("LC_ALL", "de_DE.UTF-8"), ("LC_NUMERIC", "de_DE.UTF-8")]),
+    ("env-NO_COLOR-dumb-terminal", &[("NO_COLOR", "1"), ("TERM", "dumb")]),
+    ("env-forced-colour-20-columns", &[("CLICOLOR_FORCE", "1"), ("TERM", "xterm-256color"), ("COLUMNS", "20")]),
+    ("env-TMPDIR-and-HOME-missing", &[("TMPDIR", "/nonexistent-dir"), ("HOME", "/nonexistent-home")]),
+    ("env-one-thread-pools", &[("RAYON_NUM_THREADS", "1"), ("OMP_NUM_THREADS", "1")]),
+];
 
 /// Other spellings of `argv` (subcommand first) that mean the same: every option in its long form
 /// with `=`, in its short form with the value attached, list values as repeated occurrences, the
@@ -872,6 +1094,66 @@ pub fn respelling_differences(argv: &[&str], stdin: &[u8], scratch: &Scratch) ->
             let _ = fs::remove_file(&path);
         }
     }
+    // stdout appended to a file that already holds something (`>>`): the earlier content stays and
+    // the output follows it
+    if base.ok() {
+        let earlier = b"# earlier output\n";
+        let (o, got) = run_sfs_stdout_appended(argv, stdin, earlier, scratch);
+        let mut expect = earlier.to_vec();
+        expect.extend_from_slice(&base.stdout);
+        if !o.ok() || got != expect {
+            out.push((
+                "stdout-appended-to-a-file".to_string(),
+                canonical.clone(),
+                format!("{argv:?} >> FILE gives {} and leaves {} bytes in a file that held {} bytes, the plain call prints {} bytes", o.status_str(), got.len(), earlier.len(), base.stdout.len()),
+            ));
+        }
+    }
+    // stdout on a full device: a run that cannot write what it would have printed does not succeed
+    if base.ok() && !base.stdout.is_empty() {
+        let o = run_sfs_stdout_to(argv, stdin, Path::new(private_device(true)), scratch);
+        if o.ok() || !o.diagnosed_error() {
+            out.push((
+                "stdout-on-a-full-device".to_string(),
+                canonical.clone(),
+                format!("{argv:?} with stdout on a full device gives {} ({}), although none of its {} bytes of output can be written", o.status_str(), o.stderr_str().lines().last().unwrap_or("").chars().take(160).collect::<String>(), base.stdout.len()),
+            ));
+        }
+    }
+    // the input named by path while stdin is a terminal (an interactive shell), without the test
+    // suite's SFS_ALLOW_STDIN
+    if !has_positional {
+        let path = scratch.file(".named", stdin);
+        let mut a = canonical.clone();
+        a.push(path.to_str().unwrap().to_string());
+        let av: Vec<&str> = a.iter().map(|s| s.as_str()).collect();
+        if let Some(o) = run_sfs_stdin_terminal(&av, scratch) {
+            if o.code != base.code || o.signal != base.signal || o.stdout != base.stdout {
+                out.push((
+                    "input-by-path-with-a-terminal-on-stdin".to_string(),
+                    a.clone(),
+                    format!("{a:?} with a terminal on stdin gives {} with {} bytes of output ({}), {argv:?} on the same bytes gives {} with {} bytes", o.status_str(), o.stdout.len(), o.stderr_str().lines().last().unwrap_or("").chars().take(160).collect::<String>(), base.status_str(), base.stdout.len()),
+                ));
+            }
+        }
+        let _ = fs::remove_file(&path);
+    }
+    // the same call in other environments (a third of the command lines, chosen by their text): what
+    // is logged, how messages are coloured, the locale and the temporary directory change neither the
+    // exit status nor stdout
+    if canonical.iter().flat_map(|a| a.bytes()).map(|b| b as usize).sum::<usize>() % 3 == 0 {
+        let envs = ENVIRONMENTS;
+        for (kind, env) in envs {
+            let o = run_sfs_env(argv, Stdin::Bytes(stdin), scratch, env, &Limits::default());
+            if o.code != base.code || o.signal != base.signal || o.stdout != base.stdout {
+                out.push((
+                    kind.to_string(),
+                    canonical.clone(),
+                    format!("{argv:?} with {env:?} in the environment gives {} with {} bytes of output ({}), without it {} with {} bytes", o.status_str(), o.stdout.len(), o.stderr_str().lines().last().unwrap_or("").chars().take(160).collect::<String>(), base.status_str(), base.stdout.len()),
+                ));
+            }
+        }
+    }
     // a text spectrum with CRLF line ends, and without the final line end
     if sub != "create" && stdin.starts_with(b"#SHAPE") && !has_positional {
         let text = String::from_utf8_lossy(stdin).to_string();
@@ -893,6 +1175,22 @@ pub fn respelling_differences(argv: &[&str], stdin: &[u8], scratch: &Scratch) ->
     if sub == "create" {
         if let Some(at) = argv.iter().position(|a| *a == "-s" || *a == "--samples") {
             if let Some(list) = argv.get(at + 1) {
+                // ... and as a samples file that is a named pipe
+                {
+                    let content: String = list.split(',').map(|e| match e.split_once('=') { Some((n, l)) => format!("{n}\t{l}\n"), None => format!("{e}\n") }).collect();
+                    let mut a: Vec<String> = canonical[..at].to_vec();
+                    a.extend(["-S".to_string(), "{FIFO}".to_string()]);
+                    a.extend(canonical[at + 2..].iter().cloned());
+                    let av: Vec<&str> = a.iter().map(|s| s.as_str()).collect();
+                    let o = run_sfs_fifo_at(&av, content.as_bytes(), ".samples", Stdin::Bytes(stdin), scratch);
+                    if o.code != base.code || o.signal != base.signal || o.stdout != base.stdout {
+                        out.push((
+                            "samples-file-is-a-named-pipe".to_string(),
+                            a.clone(),
+                            format!("{a:?} gives {} with {} bytes of output ({}), {argv:?} gives {} with {} bytes", o.status_str(), o.stdout.len(), o.stderr_str().lines().last().unwrap_or("").chars().take(160).collect::<String>(), base.status_str(), base.stdout.len()),
+                        ));
+                    }
+                }
                 for (kind, spelled) in samples_spellings(list, scratch) {
                     let mut a: Vec<String> = canonical[..at].to_vec();
                     a.extend(spelled);
